@@ -1,10 +1,12 @@
 #!/bin/bash
 # usage: seed_eval.sh <ID> [<check ids...>]   evaluates /tmp/wt_<ID>/seed against /repo
 set -u
-ID=$1; shift
-CHECKS=${@:-$ID}
-SRC=/tmp/wt_$ID/seed
-DST=/verif/seeded/$ID
+# usage: seed_eval.sh <ID> [<seed dir> [<name under /verif/seeded>]]
+ID=$1
+SRC=${2:-/tmp/wt_$ID/seed}
+NAME=${3:-$ID}
+CHECKS=$ID
+DST=/verif/seeded/$NAME
 mkdir -p $DST
 cp $SRC/patch.diff $DST/patch.diff
 cp $SRC/meta.json $DST/meta.json
